@@ -1,5 +1,5 @@
 From Coq Require Import Reals ZArith List String.
-From OV Require Import Ops RInst XR Gen.RealRays Gen.Standard Gen.C07K Model.Trace Model.M_C07 Lemmas.L_C07_kernel Lemmas.L_C07_redesc Lemmas.L_C07_mirror Lemmas.L_C07_scale Lemmas.L_C07_system Lemmas.L_Standard Spec.S_C07 Lemmas.L_C07_spec.
+From OV Require Import Ops RInst XR Gen.RealRays Gen.Standard Gen.C07K Model.Trace Model.M_C07 Lemmas.L_C07_kernel Lemmas.L_C07_redesc Lemmas.L_C07_mirror Lemmas.L_C07_scale Lemmas.L_C07_system Lemmas.L_Standard Spec.S_C07 Lemmas.L_C07_spec Num.OpsC03 Gen.C07L Lemmas.L_C07_launch.
 Local Open Scope R_scope.
 Import ListNotations.
 
@@ -257,4 +257,27 @@ Theorem C07_tilted_y_quadric_is_same_sphere :
           quadric 0 Rc x2 y1 z2 = 0%R <-> on_sphere (centre_of (vx, vy, vz) Rc) Rc (X, Y, Z).
 Proof. exact tilted_y_quadric_is_same_sphere. Qed.
 Print Assumptions C07_tilted_y_quadric_is_same_sphere.
+
+Theorem C07_z_offset_homogeneous :
+  forall s : R,
+       (0 < s)%R ->
+       forall (pos : list R) (EPD EPL : R),
+       k_c07_z_offset ROps (map (Rmult s) pos) (s * EPD)%R (s * EPL)%R =
+       (s * k_c07_z_offset ROps pos EPD EPL)%R.
+Proof. exact z_offset_homogeneous. Qed.
+Print Assumptions C07_z_offset_homogeneous.
+
+Theorem C07_origins_homogeneous :
+  forall s : R,
+       (0 < s)%R ->
+       forall (Hx Hy Px Py vx vy mf : R) (inf : bool) (ft : string) (tele : bool) 
+         (EPL EPD : R) (pos : list R) (Robj kobj zobj : R),
+       k_c07_origins ROps Hx Hy Px Py vx vy
+         (if String.eqb ft "object_height"%string then (s * mf)%R else mf) inf ft tele 
+         (s * EPL)%R (s * EPD)%R (map (Rmult s) pos) (s * Robj)%R kobj 
+         (s * zobj)%R =
+       option_map (scale3 s)
+         (k_c07_origins ROps Hx Hy Px Py vx vy mf inf ft tele EPL EPD pos Robj kobj zobj).
+Proof. exact origins_homogeneous. Qed.
+Print Assumptions C07_origins_homogeneous.
 
